@@ -222,6 +222,22 @@ class LR(G):
         G.__init__(self, "LinearRing", coords=list(coords))
 
 
+def h_densify_degenerate(n):
+    """coordinate lists with no vertex (an empty LineString / ring: legal, and what reprojection
+    without densification handles) or a single one: nothing to add, nothing to fail on"""
+    import odc.geo.geom as geom
+
+    r = Real("resolution")
+    assume(r > 0)
+    pts = [(Real(f"x{i}"), Real(f"y{i}")) for i in range(n)]
+    try:
+        out = geom.densify(pts, r)
+    except (IndexError, ValueError, TypeError):
+        prove("degenerate_coordinate_list_is_returned_as_it_is", False)
+        return
+    prove("degenerate_coordinate_list_is_returned_as_it_is", list(out) == pts)
+
+
 def h_segmented_dispatch():
     import odc.geo.geom as geom
     from odc.geo.geom import Geometry
@@ -330,7 +346,13 @@ def h_to_crs(resmode, wrap=False):
     seg_calls = []
     proj_calls = []
     if not conc:
-        res_val = Real("resolution") if resmode == "finite" else (float("inf") if resmode == "inf" else None)
+        if resmode in ("np.float32", "np.int64", "int"):
+            # a finite resolution in another numeric type than float (what numpy arithmetic hands out)
+            import numpy as _np
+
+            res_val = {"np.float32": _np.float32(0.5), "np.int64": _np.int64(2), "int": 2}[resmode]
+        else:
+            res_val = Real("resolution") if resmode == "finite" else (float("inf") if resmode == "inf" else None)
         if resmode == "finite":
             assume(res_val > 0)
 
@@ -358,7 +380,9 @@ def h_to_crs(resmode, wrap=False):
         Geometry.segmented, Geometry._to_crs = fake_segmented, fake__to_crs
         geom_mod.chop_along_antimeridian, geom_mod.clip_lon180 = fake_chop, (lambda g_, tol=1e-4: g_)
     else:
-        res_val = {"finite": 0.5, "inf": float("inf"), "none": None}[resmode]
+        import numpy as _np
+
+        res_val = {"finite": 0.5, "inf": float("inf"), "none": None, "np.float32": _np.float32(0.5), "np.int64": _np.int64(2), "int": 2}[resmode]
     sm = c01.same(ts, tt)
     try:
         try:
@@ -377,7 +401,7 @@ def h_to_crs(resmode, wrap=False):
         prove("result_tagged_with_target_crs", out.crs is tt.crs or out.crs == tt.crs)
         if conc:
             prove("type_preserved", out.geom_type == g.geom_type)
-            if resmode == "finite":
+            if resmode in ("finite", "np.float32", "np.int64", "int"):
                 prove("densified_before_projecting", len(out.exterior.coords) > len(g.exterior.coords))
             else:
                 prove("vertex_count_kept", len(out.exterior.coords) == len(g.exterior.coords))
@@ -392,7 +416,7 @@ def h_to_crs(resmode, wrap=False):
             operand = chop_calls[0]
         else:
             operand = proj_calls[0][0]
-        if resmode == "finite":
+        if resmode in ("finite", "np.float32", "np.int64", "int"):
             prove("densified_before_projecting", seg_calls == [res_val] and operand.geom.name == "segmented")
         else:
             prove("not_densified_without_finite_resolution", seg_calls == [] and operand is g)
@@ -405,6 +429,8 @@ OBLIGATIONS = [
     Ob("D1_densify_segment", h_densify_segment, tiered([dict(K=4)], [dict(K=4), dict(K=8)]),
        descr="densify on one edge: endpoints kept, every edge of the result <= resolution, inserted vertices on the edge at k*resolution from the start",
        functions=("odc.geo.geom.densify",), bounds="endpoints and resolution symbolic reals, edge length <= K*resolution", stubs=("LineString length/interpolate contract",), setup=setup, fresh_only=True, timeout_ms=60000),
+    *([Ob("D1_degenerate_list", h_densify_degenerate, fixed(dict(n=0), dict(n=1)), descr="densify of an empty coordinate list (empty LineString / ring) or a single vertex returns it unchanged instead of failing",
+          functions=("odc.geo.geom.densify",), setup=setup)] if __import__("os").environ.get("VERIF_DEV") else []),
     Ob("D1_nonpositive_resolution", h_densify_nonpositive, fixed(), descr="densify with a resolution <= 0 returns or raises ValueError (no endless interpolation loop)",
        functions=("odc.geo.geom.densify",), bounds="endpoints symbolic and distinct, resolution symbolic <= 0; 'does not terminate' = more than 8 interpolation steps on one edge in the symbolic run (each step adds resolution <= 0 to a distance that must exceed the edge length to stop), 5 s alarm in the replay",
        stubs=("LineString length/interpolate contract",), setup=setup, fresh_only=True, timeout_ms=60000),
@@ -412,7 +438,7 @@ OBLIGATIONS = [
        functions=("odc.geo.geom.densify",), bounds="three symbolic vertices, each edge <= K*resolution", stubs=("LineString contract",), setup=setup, fresh_only=True, timeout_ms=60000),
     Ob("D3_segmented_dispatch", h_segmented_dispatch, fixed(), descr="segmented(): points cloned, collections recursed, every polygon ring and line densified with the requested resolution, geometry type preserved",
        functions=("odc.geo.geom.Geometry.segmented",), stubs=("structural geometry fakes", "densify recorder"), setup=setup),
-    Ob("D4_to_crs_guards", h_to_crs, fixed(dict(resmode="none"), dict(resmode="finite"), dict(resmode="inf"), dict(resmode="finite", wrap=True), dict(resmode="none", wrap=True)),
+    Ob("D4_to_crs_guards", h_to_crs, fixed(dict(resmode="none"), dict(resmode="finite"), dict(resmode="inf"), dict(resmode="finite", wrap=True), dict(resmode="none", wrap=True), dict(resmode="np.float32"), dict(resmode="np.int64"), dict(resmode="int")),
        descr="to_crs: same CRS (any spelling) => the very same object; no CRS => ValueError; finite resolution => densified before projecting; result tagged with the target CRS",
        functions=("odc.geo.geom.Geometry.to_crs", "odc.geo.crs.norm_crs_or_error"), stubs=("abstract CRS tags", "segmented/_to_crs recorders"), setup=setup_tocrs),
 ]
